@@ -47,7 +47,7 @@ Definition ae_out (x : node) (o : out) : Prop :=
 Lemma ae_out_fv x x' o : fv x' = fv x -> ae_out x o -> ae_out x' o.
 Proof.
   intros H. fvinj H. unfold ae_out, ae_msg_ok.
-  destruct o as [d m| | | |]; auto. destruct m; auto; congruence.
+  repeat match goal with E : _ = _ |- _ => rewrite E; clear E end. auto.
 Qed.
 
 Definition ae_rel (s s' : S) : Prop :=
@@ -68,6 +68,22 @@ Lemma ae_rel_eq s s1 s2 : nd s2 = nd s1 -> outs s2 = outs s1 -> ae_rel s s1 -> a
 Proof. intros E1 E2 [F H]. split; rewrite ?E1, ?E2; auto. Qed.
 
 (* ---- small facts ---- *)
+Lemma In_firstn_in {A} k (l : list A) x : In x (firstn k l) -> In x l.
+Proof.
+  revert l. induction k as [|k IH]; intros [|a l]; cbn; try tauto. intros [H|H]; auto.
+Qed.
+
+Lemma In_skipn_in {A} k (l : list A) x : In x (skipn k l) -> In x l.
+Proof.
+  revert l. induction k as [|k IH]; intros [|a l]; cbn; try tauto. intros H; auto.
+Qed.
+
+Lemma Forall_firstn {A} (P : A -> Prop) k l : Forall P l -> Forall P (firstn k l).
+Proof. rewrite !Forall_forall. intros H x Hx. apply H. eapply In_firstn_in; eauto. Qed.
+
+Lemma Forall_skipn {A} (P : A -> Prop) k l : Forall P l -> Forall P (skipn k l).
+Proof. rewrite !Forall_forall. intros H x Hx. apply H. eapply In_skipn_in; eauto. Qed.
+
 Lemma outs_send d m s : outs (send d m s) = outs s \/ outs (send d m s) = outs s ++ [Send d m].
 Proof. unfold send. destruct (smem d (tconn (nd s))); auto. Qed.
 
@@ -87,16 +103,16 @@ Proof. intros H. destruct z; cbn in *. subst. reflexivity. Qed.
 
 Lemma In_sadd x y l : In x (sadd y l) <-> x = y \/ In x l.
 Proof.
-  induction l as [|a l IH]; cbn; [tauto|].
-  destruct (y <? a); cbn; [tauto|]. destruct (y =? a) eqn:E; cbn.
-  - apply N.eqb_eq in E. subst. tauto.
-  - rewrite IH. tauto.
+  induction l as [|a l IH]; cbn; [intuition congruence|].
+  destruct (y <? a); cbn; [intuition congruence|]. destruct (y =? a) eqn:E; cbn.
+  - apply N.eqb_eq in E. subst. intuition congruence.
+  - rewrite IH. intuition congruence.
 Qed.
 
 Lemma In_sunion x a b : In x (sunion a b) <-> In x a \/ In x b.
 Proof.
   unfold sunion. revert a. induction b as [|y b IH]; intros a; cbn; [tauto|].
-  rewrite IH, In_sadd. tauto.
+  rewrite IH, In_sadd. intuition congruence.
 Qed.
 
 Lemma In_targets e n x : In x (targets e n) -> In x (others n) \/ In x (readonly n).
@@ -155,10 +171,8 @@ Proof.
       { eexists. apply take_size_firstn. }
       assert (Hin : forall en, In en es -> smalle en).
       { intros en Hen. destruct Hes as (k & Hk). rewrite Hk in Hen.
-        apply firstn_In in Hen. apply ML.In_skipn in Hen || idtac.
-        rewrite Forall_forall in Sm. apply Sm.
-        revert Hen. generalize (n2 next - 1)%nat. intros q. revert q. induction (log (nd s)) as [|a l IH]; intros [|q]; cbn; auto.
-        intros H. right. eapply IH; eauto. }
+        apply In_firstn_in in Hen. apply In_skipn_in in Hen.
+        rewrite Forall_forall in Sm. apply Sm. exact Hen. }
       destruct es as [|e1 [|e2 r]] eqn:Ees.
       * cbn [fst]. apply Hsend; auto.
       * assert (Hb : batch (cf e) <=? csz (ecmd e1) = false).
@@ -257,6 +271,18 @@ Qed.
 Definition noop_entry (n : node) : entry :=
   mkEntry (noop_cmd (noop_pk (cf e))) (last_idx (log n) + 1) (term n).
 
+Lemma bl_tail_fv (x x3 : node) mi :
+  fv_noidx x3 = fv_noidx (x <| leader := self x |> <| role := LEADER |> <| last_resp := [] |>) ->
+  sr x3 = sr x -> mi = match_idx x3 ->
+  fv ((log_add (mkEntry (noop_cmd (noop_pk (cf e))) (last_idx (log x3) + 1) (term x3)) x3)
+        <| noop_idx := Some (last_idx (log x3) + 1) |>) =
+  fv (x <| role := LEADER |> <| match_idx := mi |> <| log := log x ++ [noop_entry x] |>).
+Proof.
+  intros A B C. unfold fv_noidx in A. cbn in A. injection A; intros.
+  unfold fv, log_add, noop_entry. cbn. subst mi. clear A.
+  repeat match goal with E : _ x3 = _ |- _ => rewrite E; clear E end. reflexivity.
+Qed.
+
 Lemma become_leader_spec s :
   Hser (nd s) -> wf1 (log (nd s)) -> Forall smalle (log (nd s)) -> 1 < batch (cf e) ->
   exists mi r new,
@@ -272,8 +298,8 @@ Proof.
   assert (R1 : exists r, outs s1 = outs s ++ r /\ (forall d m, ~ In (Send d m) r) /\
                          nd s1 = (nd s) <| leader := self (nd s) |> <| role := LEADER |>).
   { subst s1. unfold set_role. cbn. destruct (role (nd s) =? LEADER).
-    - exists []. rewrite app_nil_r. split; auto. split; auto. intros d m [].
-    - eexists. split; [reflexivity|]. split; auto. intros d m [H|[]]. discriminate. }
+    - exists []. rewrite app_nil_r. split; [reflexivity|]. split; [intros d m []|reflexivity].
+    - eexists. split; [reflexivity|]. split; [intros d m [H|[]]; discriminate|reflexivity]. }
   destruct R1 as (r & O1 & Hr & N1).
   set (s2 := upd (fun n => n <| last_resp := [] |>) s1).
   set (s3 := upd (fun n => fold_left _ (sunion (others n) (readonly n)) n) s2).
@@ -285,11 +311,9 @@ Proof.
   rewrite <- N3 in A, B, C.
   assert (F4 : fv (nd s4) = fv ((nd s) <| role := LEADER |> <| match_idx := match_idx (nd s3) |>
                                  <| log := log (nd s) ++ [noop_entry (nd s)] |>)).
-  { subst s4. rewrite nd_upd. unfold fv_noidx in A. injection A; intros.
-    assert (E2 : nd s2 = (nd s) <| leader := self (nd s) |> <| role := LEADER |> <| last_resp := [] |>)
-      by (subst s2; cbn; rewrite N1; reflexivity).
-    rewrite E2 in *. cbn in *.
-    unfold fv, log_add, noop_entry. cbn. repeat f_equal; try congruence. }
+  { apply (bl_tail_fv (nd s) (nd s3)); auto.
+    - rewrite A. Show. subst s2. cbn [nd upd]. rewrite N1. reflexivity.
+    - rewrite B. subst s2. cbn [nd upd]. rewrite N1. reflexivity. }
   assert (O4 : outs s4 = outs s ++ r) by (subst s4 s3 s2; cbn; auto).
   assert (HS4 : Hser (nd s4)).
   { fvinj F4. unfold Hser. cbn in *. split; [congruence|]. split; congruence. }
